@@ -509,6 +509,13 @@ func vReplayJob(task engine.SeqTask) (res engine.SeqResult) {
 				return
 			}
 			jh.jb = jb2
+			if p.Spec.Mixed {
+				if jh.jb2, err = jw.otherJob(jh.id); err != nil {
+					jh.fail("job-lost", err.Error())
+					res.Viol = jh.viol
+					return
+				}
+			}
 			if last {
 				checks++
 				jh.tokenSafety("after restart")
@@ -525,6 +532,14 @@ func vReplayJob(task engine.SeqTask) (res engine.SeqResult) {
 		res.Key = keyAtEnd
 	} else {
 		res.Key = jh.stateKey(names)
+	}
+	// a restart is meant to change nothing: mark the state right behind it, or the search would never go on from there
+	if n := len(task.Hist); n > 0 {
+		var lo struct{ K string `json:"k"` }
+		_ = json.Unmarshal(task.Hist[n-1], &lo)
+		if lo.K == "restart" {
+			res.Key += "|just-restarted"
+		}
 	}
 	res.Viol = jh.viol
 	res.Checks = checks
